@@ -32,6 +32,9 @@ REQUIRED_COUNTERS = {t: ['export_files', 'passed_out_results', 'played_results',
 CORRESPONDENCE_ONLY_OPS = ('B.wtext', 'B.line')
 
 
+# areas of the pure core whose TRANSLATION (Generated/PyCore.lean) is run next to the real code in this check
+TRANSLATED_AREAS = ('pbn',)
+
 def impl_exec(ops):
     return B.impl_exec(ops)
 
